@@ -71,6 +71,13 @@ Section Atomic.
     intro H. destruct fuel; simpl; auto. rewrite H. simpl. destruct fuel; reflexivity.
   Qed.
 
+  Lemma iterM_all_ret {A} (f : A -> M unit) (xs : list A) s :
+    (forall x, In x xs -> f x = ret tt) -> iterM f xs s = (Ok tt, s).
+  Proof.
+    induction xs as [|x t IH]; intro H; simpl; [reflexivity|].
+    rewrite (H x) by (simpl; auto). unfold bind. simpl. apply IH. intros; apply H; simpl; auto.
+  Qed.
+
   Lemma invalidate_noop l a s c d k :
     nth_error (heap s) l = Some (OInst c d) -> lookup_cls ct c = Some k -> no_dependants k a ->
     invalidate_attrs ct rec l a s = (Ok tt, s).
@@ -79,34 +86,82 @@ Section Atomic.
     erewrite bind_ok; [|apply read_inst_at; eauto]. cbn [fst].
     erewrite bind_ok; [|apply cls_of_at; eauto]. cbv zeta.
     rewrite closure_no_dependants by exact H3.
-    induction (c_attrs k) as [|sp t IH]; simpl; auto.
-    replace (existsb (fun z => z =? a_name sp) [a] && negb (a_name sp =? a)) with false.
-    - unfold bind. simpl. exact IH.
-    - simpl. rewrite Nat.eqb_sym. destruct (a_name sp =? a); reflexivity.
+    apply iterM_all_ret. intros sp _.
+    replace (existsb (fun z : nat => z =? a_name sp) [a] && negb (a_name sp =? a)) with false; [reflexivity|].
+    simpl. rewrite Nat.eqb_sym. destruct (a_name sp =? a); reflexivity.
   Qed.
 
   (* the tail of mutate_attr(inplace): the single write and the (empty) invalidation *)
-  Lemma write_tail_atomic l a v skip c k :
+  Lemma write_tail_cases l a v (skip : bool) c k s d :
+    lookup_cls ct c = Some k -> no_dependants k a ->
+    nth_error (heap s) l = Some (OInst c d) ->
+    (raw_setattr l a v ;;; (if skip then ret tt else invalidate_attrs ct rec l a)) s = (Err RuntimeErr, s)
+    \/ exists s1, (raw_setattr l a v ;;; (if skip then ret tt else invalidate_attrs ct rec l a)) s = (Ok tt, s1).
+  Proof.
+    intros Hk Hd Hn. unfold raw_setattr, bind.
+    rewrite (read_inst_at l s c d Hn). cbn [fst snd].
+    destruct (write_result l (OInst c (assoc_set a v d)) s) as [W|[Hlt W]]; rewrite W; [left; reflexivity|].
+    right. destruct skip; [eexists; reflexivity|].
+    erewrite invalidate_noop; [eexists; reflexivity| |exact Hk|exact Hd].
+    simpl. now apply nth_error_set_nth_same.
+  Qed.
+
+  Lemma write_tail_atomic l a v (skip : bool) c k :
     lookup_cls ct c = Some k -> no_dependants k a ->
     forall s d, nth_error (heap s) l = Some (OInst c d) ->
     forall e, fst ((raw_setattr l a v ;;; (if skip then ret tt else invalidate_attrs ct rec l a)) s) = Err e ->
               snd ((raw_setattr l a v ;;; (if skip then ret tt else invalidate_attrs ct rec l a)) s) = s.
   Proof.
-    intros Hk Hd s d Hn e. unfold raw_setattr.
-    unfold bind at 1. unfold bind at 1.
-    rewrite (read_inst_at l s c d Hn). cbn [fst snd].
-    destruct (write_result l (OInst c (assoc_set a v d)) s) as [W|[Hlt W]]; rewrite W; [auto|].
-    set (s1 := mkst (set_nth l (OInst c (assoc_set a v d)) (heap s)) (ncalls s) (fail_at s)).
-    destruct skip; [simpl; discriminate|].
-    rewrite (invalidate_noop l a s1 c (assoc_set a v d) k); [simpl; discriminate| |exact Hk|exact Hd].
-    unfold s1. simpl. now apply nth_error_set_nth_same.
+    intros Hk Hd s d Hn e.
+    destruct (write_tail_cases l a v skip c k s d Hk Hd Hn) as [E|[s1 E]]; rewrite E; simpl; auto.
+    discriminate.
   Qed.
 
   Lemma thawed_nothaw_eq {A} l (m : M A) s c d k :
     nth_error (heap s) l = Some (OInst c d) -> lookup_cls ct c = Some k -> thawed ct l false m s = m s.
   Proof.
     intros H1 H2. unfold thawed. erewrite bind_ok; [|unfold read; rewrite H1; reflexivity].
-    erewrite bind_ok; [|apply cls_of_at; eauto]. reflexivity.
+    cbv iota beta. erewrite bind_ok; [|apply cls_of_at; eauto]. reflexivity.
+  Qed.
+
+  Local Opaque check_type FUEL.
+
+  Lemma type_check_cases k a v (tc : bool) s :
+    let m := (match lookup_attr k a with
+              | Some sp => if tc then ok <- check_typeM ct v (a_ty sp) ;; (if ok then ret tt else fail TypeErr)
+                           else ret tt
+              | None => ret tt end) in
+    m s = (Ok tt, s) \/ m s = (Err TypeErr, s).
+  Proof.
+    cbv zeta. destruct (lookup_attr k a); [destruct tc|]; auto.
+    unfold check_typeM, get_heap, bind, ret. simpl.
+    destruct (check_type FUEL ct (heap s) v (a_ty a0)); auto.
+  Qed.
+
+  Lemma mutate_attr_inplace_cases l a v tc force skip s c d k :
+    nth_error (heap s) l = Some (OInst c d) -> lookup_cls ct c = Some k ->
+    c_dnc k = false -> no_dependants k a ->
+    (exists e, mutate_attr ct rec l a v true tc force skip s = (Err e, s))
+    \/ exists r s1, mutate_attr ct rec l a v true tc force skip s = (Ok r, s1).
+  Proof.
+    intros Hn Hk Hdnc Hd. unfold mutate_attr.
+    destruct (is_sentinel v); [right; eexists; eexists; reflexivity|].
+    erewrite bind_ok; [|apply read_inst_at; eauto]. cbn [fst snd].
+    erewrite bind_ok; [|apply cls_of_at; eauto].
+    destruct (negb (force || initializing d) && true && c_frozen k).
+    { left. eexists. erewrite bind_err; reflexivity. }
+    erewrite bind_ok; [|reflexivity].
+    destruct (type_check_cases k a v tc s) as [E|E]; cbv zeta in E.
+    2:{ left. eexists. erewrite bind_err; [reflexivity|exact E]. }
+    erewrite bind_ok; [|exact E].
+    cbv zeta. rewrite Hdnc. cbn [orb negb andb].
+    erewrite bind_ok; [|reflexivity].
+    erewrite bind_ok; [|reflexivity].
+    destruct (write_tail_cases l a v skip c k s d Hk Hd Hn) as [E2|[s1 E2]].
+    - left. eexists. erewrite bind_err; [reflexivity|].
+      rewrite (thawed_nothaw_eq l _ s c d k Hn Hk). exact E2.
+    - right. eexists. eexists. erewrite bind_ok; [reflexivity|].
+      rewrite (thawed_nothaw_eq l _ s c d k Hn Hk). exact E2.
   Qed.
 
   Theorem mutate_attr_inplace_atomic l a v tc force skip s c d k :
@@ -115,33 +170,109 @@ Section Atomic.
     forall e, fst (mutate_attr ct rec l a v true tc force skip s) = Err e ->
               snd (mutate_attr ct rec l a v true tc force skip s) = s.
   Proof.
-    intros Hn Hk Hdnc Hd e. unfold mutate_attr.
-    destruct (is_sentinel v); [simpl; discriminate|].
-    erewrite bind_ok; [|apply read_inst_at; eauto]. cbn [fst snd].
-    erewrite bind_ok; [|apply cls_of_at; eauto].
-    (* the frozen guard *)
-    unfold bind at 1.
-    destruct (negb (force || initializing d) && true && c_frozen k); [simpl; auto|]. cbn [ret].
-    (* the type check: a reader *)
-    unfold bind at 1.
-    assert (R : reader (match lookup_attr k a with
-                        | Some sp => if tc then ok <- check_typeM ct v (a_ty sp) ;; (if ok then ret tt else fail TypeErr)
-                                     else ret tt
-                        | None => ret tt end)).
-    { destruct (lookup_attr k a); [destruct tc|]; auto using reader_ret.
-      apply reader_bind; [apply reader_check_typeM|]. intros []; auto using reader_ret, reader_fail. }
-    specialize (R s).
-    destruct ((match lookup_attr k a with
-               | Some sp => if tc then ok <- check_typeM ct v (a_ty sp) ;; (if ok then ret tt else fail TypeErr)
-                            else ret tt
-               | None => ret tt end) s) as [[u|e'] s1] eqn:E; simpl in R; subst s1; [|simpl; auto].
-    cbv zeta. rewrite Hdnc. cbn [orb negb andb].
-    unfold bind at 1. cbn [ret]. unfold bind at 1. cbn [ret].
-    unfold bind at 1.
-    rewrite (thawed_nothaw_eq l _ s c d k Hn Hk).
-    pose proof (write_tail_atomic l a v skip c k Hk Hd s d Hn) as T.
-    destruct ((raw_setattr ct l a v;;; (if skip then ret tt else invalidate_attrs ct rec l a)) s) as [[u'|e''] s2] eqn:E2.
-    - simpl. discriminate.
-    - simpl. intros _. eapply T. reflexivity.
+    intros Hn Hk Hdnc Hd e.
+    destruct (mutate_attr_inplace_cases l a v tc force skip s c d k Hn Hk Hdnc Hd) as [[e' E]|[r [s1 E]]];
+      rewrite E; simpl; auto. discriminate.
   Qed.
 End Atomic.
+
+(* ------------------------------------------------------------------ *)
+(* From the atomicity of the final write to whole operations: everything
+   before it is framed (only allocates), so an exception leaves every
+   pre-existing cell as it was. *)
+Section AtomicOps.
+  Variable ct : ctable.
+  Hypothesis no_dnc : forall c k, lookup_cls ct c = Some k -> c_dnc k = false.
+
+  Definition err_frame {A} (b : nat) (m : M A) (s : state) : Prop :=
+    forall e, fst (m s) = Err e -> frame b s (snd (m s)).
+
+  (* a framed prefix followed by a step that is atomic in every state where
+     cell l still holds the instance *)
+  Lemma prefix_then_atomic {A B} b l c d (m : M A) (k : A -> M B) Q s :
+    l < b -> b <= length (heap s) -> nth_error (heap s) l = Some (OInst c d) ->
+    framed b m Q ->
+    (forall a s1, nth_error (heap s1) l = Some (OInst c d) ->
+                  forall e, fst (k a s1) = Err e -> snd (k a s1) = s1) ->
+    err_frame b (bind m k) s.
+  Proof.
+    intros Hl Hb Hn Hm Hk e. unfold bind. destruct (Hm s Hb) as [F _].
+    destruct (m s) as [[a|e1] s1] eqn:Em; simpl in *; [|intros _; exact F].
+    intro E. rewrite (Hk a s1) with (e := e); auto.
+    destruct F as [_ F]. rewrite (F l Hl). exact Hn.
+  Qed.
+
+  Variable rec : call -> M val.
+
+  Lemma with_attr_inplace_err_frame b l sp new attrs s c d k :
+    l < b -> b <= length (heap s) ->
+    nth_error (heap s) l = Some (OInst c d) -> lookup_cls ct c = Some k ->
+    no_dependants k (a_name sp) ->
+    err_frame b (with_attr ct l sp new attrs true) s.
+  Proof.
+    intros Hl Hb Hn Hk Hd. unfold with_attr.
+    eapply prefix_then_atomic with (Q := fun _ => True); eauto.
+    - apply prepare_attr_value_framed; auto. apply exec_framed; auto.
+    - intros v s1 Hn1 e. eapply mutate_attr_inplace_atomic; eauto.
+  Qed.
+
+  Lemma setattr_err_frame b l a v force skip s c d k :
+    (forall q, call_ok b q -> framed b (rec q) (post b q)) ->
+    l < b -> b <= length (heap s) ->
+    nth_error (heap s) l = Some (OInst c d) -> lookup_cls ct c = Some k ->
+    no_dependants k a ->
+    err_frame b (setattr_ ct rec l a v force skip) s.
+  Proof.
+    intros Hrec Hl Hb Hn Hk Hd e. unfold setattr_.
+    erewrite bind_ok; [|apply read_inst_at; eauto]. cbn [fst snd].
+    erewrite bind_ok; [|apply cls_of_at; eauto].
+    revert e. eapply prefix_then_atomic with (Q := fun _ => True); eauto.
+    - destruct (lookup_attr k a); [apply prepare_attr_value_framed; auto|now apply framed_ret].
+    - intros value s1 Hn1 e. eapply mutate_attr_inplace_atomic; eauto.
+  Qed.
+End AtomicOps.
+
+Section AtomicStep.
+  Variable ct : ctable.
+  Hypothesis no_dnc : forall c k, lookup_cls ct c = Some k -> c_dnc k = false.
+
+  (* obj.a = v on a non-frozen or frozen instance whose attribute a has no
+     dependants: an exception leaves every pre-existing cell unchanged *)
+  Theorem setattr_op_err_frame roots x a v s l c d k e :
+    nth x roots VNone = VRef l -> l < length (heap s) ->
+    nth_error (heap s) l = Some (OInst c d) -> lookup_cls ct c = Some k ->
+    no_dependants k a ->
+    fst (step ct roots (OpSetAttr x a v) s) = Err e ->
+    frame (length (heap s)) s (snd (step ct roots (OpSetAttr x a v) s)).
+  Proof.
+    intros Hx Hl Hn Hk Hd. unfold step. rewrite Hx. cbn [loc_of].
+    rewrite bind_ok with (a := l) (s1 := s) by reflexivity.
+    pose proof (setattr_err_frame ct no_dnc (exec ct 39) (length (heap s)) l a v false false s c d k
+                  (exec_framed ct no_dnc (length (heap s)) 39) Hl (le_n _) Hn Hk Hd) as H.
+    change (exec ct XFUEL (KSetAttr l a v false false)) with (setattr_ ct (exec ct 39) l a v false false).
+    unfold bind.
+    destruct (setattr_ ct (exec ct 39) l a v false false s) as [[r|e1] s1] eqn:E; simpl.
+    - discriminate.
+    - intros _. specialize (H e1). rewrite E in H. simpl in H. auto.
+  Qed.
+
+  Theorem inplace_with_op_err_frame roots x a h s l c d k sp e :
+    nth x roots VNone = VRef l -> l < length (heap s) ->
+    nth_error (heap s) l = Some (OInst c d) -> lookup_cls ct c = Some k ->
+    lookup_attr k a = Some sp -> a_name sp = a -> no_dependants k a ->
+    h_inplace h = true -> h_if h = true ->
+    fst (step ct roots (OpHelper x (HWith a) h) s) = Err e ->
+    frame (length (heap s)) s (snd (step ct roots (OpHelper x (HWith a) h) s)).
+  Proof.
+    intros Hx Hl Hn Hk Hsp Hname Hd Hin Hif. unfold step. rewrite Hx. cbn [loc_of].
+    rewrite bind_ok with (a := l) (s1 := s) by reflexivity.
+    unfold run_helper. rewrite Hif, Hin. cbn [negb].
+    unfold spec_for.
+    erewrite bind_ok; [|erewrite bind_ok; [|apply read_inst_at; eauto]; cbn [fst];
+                        erewrite bind_ok; [|apply cls_of_at; eauto]; rewrite Hsp; reflexivity].
+    cbn [snd].
+    pose proof (with_attr_inplace_err_frame ct no_dnc (length (heap s)) l sp (pos0 h) (h_kw h) s c d k
+                  Hl (le_n _) Hn Hk) as H.
+    rewrite Hname in H. intro E. apply (H Hd e E).
+  Qed.
+End AtomicStep.
